@@ -311,6 +311,11 @@ type SetModel struct {
 	Executed bool
 	// ExecNames: templates that were the target of an execution (successful or not).
 	ExecNames map[string]bool
+	// LateCSP: CSPCompatible was called after an execution. The setting is read when a template is analysed, so it
+	// reaches only templates analysed later; PreCSP holds the names executed before the call, whose results must
+	// stay what they were ("no later output of the set changes"). Other results of the set are not judged.
+	LateCSP bool
+	PreCSP  map[string]bool
 	// Uncertain: an ExecuteTemplate of an undefined name happened before any real execution. The
 	// statement does not say whether that freezes the set (the implementation does freeze it), so a
 	// later New makes the set's definitions unknowable to the model: references are skipped.
@@ -337,7 +342,11 @@ func (m *Model) Copy() *Model {
 		for k, v := range s.ExecNames {
 			en[k] = v
 		}
-		c.Sets[i] = SetModel{Executed: s.Executed, ExecNames: en, Uncertain: s.Uncertain, Unknown: s.Unknown, Lineage: append([]Op{}, s.Lineage...)}
+		pre := map[string]bool{}
+		for k, v := range s.PreCSP {
+			pre[k] = v
+		}
+		c.Sets[i] = SetModel{Executed: s.Executed, ExecNames: en, Uncertain: s.Uncertain, Unknown: s.Unknown, LateCSP: s.LateCSP, PreCSP: pre, Lineage: append([]Op{}, s.Lineage...)}
 	}
 	return &c
 }
@@ -379,7 +388,11 @@ func (m *Model) Step(o Op, obs Obs) Expect {
 	var e Expect
 	switch o.Kind {
 	case Exec:
-		if m.SlotPost[o.H] || s.Unknown {
+		target := o.Name
+		if o.Form < 2 {
+			target = m.name(o.H)
+		}
+		if m.SlotPost[o.H] || s.Unknown || s.LateCSP && !s.PreCSP[target] {
 			e.SkipRef = true
 		} else {
 			e.Reference = append(append([]Op{}, s.Lineage...), o)
@@ -436,16 +449,22 @@ func (m *Model) Step(o Op, obs Obs) Expect {
 		if s.ExecNames[m.name(o.H)] {
 			e.MustErr = true // cloning a template that has already been executed
 		} else if !obs.Err {
-			ns := SetModel{Lineage: append(append([]Op{}, s.Lineage...), o), Unknown: s.Unknown}
+			ns := SetModel{Lineage: append(append([]Op{}, s.Lineage...), o), Unknown: s.Unknown || s.LateCSP}
 			m.Sets = append(m.Sets, ns)
 			m.SlotSet[o.Dst], m.SlotNil[o.Dst], m.SlotPost[o.Dst] = len(m.Sets)-1, false, false
 			m.SlotName[o.Dst] = m.name(o.H)
 		}
 	case CSP:
-		if s.Executed || s.Uncertain {
-			// The setting is read when a template is analysed: on a set that has been executed it reaches only the
-			// templates analysed later. No listed property says which; results of this set are not judged any more.
+		if s.Uncertain {
 			s.Unknown = true
+		} else if s.Executed {
+			if !s.LateCSP {
+				s.LateCSP = true
+				s.PreCSP = map[string]bool{}
+				for k, v := range s.ExecNames {
+					s.PreCSP[k] = v
+				}
+			}
 		} else {
 			s.Lineage = append(s.Lineage, o)
 			e.DefChanges = true
